@@ -258,6 +258,10 @@ pub struct StreamQ {
     pub next_seq: u32,
     pub progress: u64,
     pub polls: u64,
+    /// number of calls the service had handled when the server saw the end of this stream
+    pub end_seen_at: Option<u64>,
+    /// shared count of handled calls
+    pub clock: Rc<std::cell::Cell<u64>>,
 }
 
 #[derive(Debug, Default)]
@@ -265,11 +269,16 @@ pub struct SvcState {
     /// (connection tag, call id, kind, oneway) in handling order
     pub log: Vec<(u32, u32, CallKind, bool)>,
     pub streams: BTreeMap<(u32, u32), Rc<RefCell<StreamQ>>>,
+    pub clock: Rc<std::cell::Cell<u64>>,
 }
 
 impl SvcState {
     pub fn stream(&mut self, c: u32, id: u32) -> Rc<RefCell<StreamQ>> {
-        self.streams.entry((c, id)).or_default().clone()
+        let clock = self.clock.clone();
+        self.streams
+            .entry((c, id))
+            .or_insert_with(|| Rc::new(RefCell::new(StreamQ { clock, ..Default::default() })))
+            .clone()
     }
 }
 
@@ -290,6 +299,9 @@ impl futures_util::Stream for SimStream {
         }
         if q.ended {
             q.progress += 1;
+            if q.end_seen_at.is_none() {
+                q.end_seen_at = Some(q.clock.get());
+            }
             return Poll::Ready(None);
         }
         Poll::Pending
@@ -309,6 +321,7 @@ impl Service for SimService {
     ) -> MethodReply<Self::ReplyParams<'ser>, Self::ReplyStream, Self::ReplyError<'ser>> {
         let oneway = call.oneway();
         let mut st = self.0.borrow_mut();
+        st.clock.set(st.clock.get() + 1);
         match *call.method() {
             SvcMethod::Echo { c, id, pad } => {
                 st.log.push((c, id, CallKind::Echo, oneway));
@@ -362,6 +375,8 @@ pub struct Trace {
     /// for each log entry: index of the observation (poll) during which it was handled
     pub log_obs: Vec<usize>,
     pub server_ended: Option<String>,
+    /// (c, id) of a Sub call -> number of calls handled when the server saw its stream end
+    pub stream_end_seen: BTreeMap<(u32, u32), u64>,
     /// for C18: per connection, per terminated frame: index of the observation before which it had
     /// been delivered completely
     pub polls: u64,
@@ -528,6 +543,11 @@ pub fn run_scenario_without(sc: &Scenario, absent: &[bool]) -> Trace {
         }
     }
     trace.log = state.borrow().log.clone();
+    for (k, q) in &state.borrow().streams {
+        if let Some(t) = q.borrow().end_seen_at {
+            trace.stream_end_seen.insert(*k, t);
+        }
+    }
     trace
 }
 
